@@ -1,5 +1,6 @@
 import VarmqVerif.Spec.Props2
 import Driver.Parse
+import Driver.Replay
 /-!
   Correspondence / oracle driver (DESIGN.md §3.3). Reads a stream of traces
     BEGIN idx seed / P json / ...lines... / S schedule / END idx k=v...
@@ -16,6 +17,7 @@ structure Cur where
   ph : UInt64 := 0
   sh : UInt64 := 0
   switches : Nat := 0
+  res : RState Res.State := .ok (Res.init 1)
 
 def wanted (sel : List String) (id : String) : Bool := sel.isEmpty || sel.contains id
 
@@ -31,7 +33,12 @@ def finish (sel : List String) (c : Cur) (e : EndInfo) : IO Unit := do
         viols := viols.push s!"V {c.idx} {id} {v}"
   let entered := tr.any (fun o => match o with | .enter .. => true | _ => false)
   let nt := if entered && c.switches ≥ 3 then 1 else 0
-  IO.println s!"RESULT {c.idx}{summary} obs={tr.length} lines={c.nlines} ph={c.ph} sh={c.sh} nt={nt}"
+  let (model, mlines) : String × List String := match c.res with
+    | .ok _ => ("ok", [])
+    | .na _ => ("na", [])
+    | .rejected ln why => ("Res", [s!"M {c.idx} Res line={ln} {why}"])
+  IO.println s!"RESULT {c.idx}{summary} model={model} obs={tr.length} lines={c.nlines} ph={c.ph} sh={c.sh} nt={nt}"
+  for m in mlines do IO.println m
   for v in viols do IO.println v
 
 partial def loop (h : IO.FS.Stream) (sel : List String) (c : Cur) : IO Unit := do
@@ -51,6 +58,9 @@ partial def loop (h : IO.FS.Stream) (sel : List String) (c : Cur) : IO Unit := d
     finish sel c (parseEnd (toks line))
     loop h sel {}
   else
+    let c := match parseRaw line with
+      | some rl => { c with res := ResMap.feed c.res (c.nlines + 1) rl }
+      | none => c
     match parseObs line with
     | some o => loop h sel { c with obs := c.obs.push o, nlines := c.nlines + 1 }
     | none => loop h sel { c with nlines := c.nlines + 1 }
